@@ -54,14 +54,20 @@ def step (s : St) : List String → St × String
         | .ok r => toHex r
         | .error e => e.name
       let r3 := match nodesFromSet H set with
-        | .ok (r, nodes) => s!"{toHex r} {nodes.length} {entriesDigest nodes}"
+        | .ok (r, nodes) =>
+          -- emission order is not an observable: sorted, distinct
+          let st : Store := nodes.foldl (fun (m : Store) (e : Bytes × Prim) => m.insert e.1 e.2) {}
+          s!"{toHex r} {storeSummary st}"
         | .error e => e.name
       -- the specification root of the set seen as a map (later pair wins)
       let m := set.foldl (fun m kv => Smt.alInsert kv.1 (H kv.2) m) []
       let r4 := match Smt.specRoot bit P n 0 m with
         | some r => toHex r
         | none => "spec-undefined"
-      (s, s!"{r1} {r2} {r3} {r4}")
+      let s' : St := match fromSet H storeOps ({} : Store) set with
+        | .ok t => { t, tree := m.foldl (fun (tr : Smt.Tree Bytes Bytes) (kv : Bytes × Bytes) => Smt.insert bit n 0 kv.1 kv.2 tr) .empty, fl := m }
+        | .error _ => s
+      (s', s!"{r1} {r2} {r3} {r4}")
   | _ => (s, "bad-op")
 
 def run : IO Unit := lineLoop ({} : St) step
